@@ -263,7 +263,7 @@ impl VIden {
          proofs={"before#1:r_\n": "proof { assert(qq@ + qq@ =~= seq![q.1 as char, q.1 as char]); }"})
     u.fn(T, B, "prepare", props=P, key="Iden::prepare", vpath="VIden::prepare",
          rules=[r_dynw, r_fmt, r_unit_tail],
-         spec="requires q.1 < 0x80,\nensures " + APP % {"w": "s"} + "\n    is_ident_tok(" + NEW % {"w": "s"} + ", self.name(), q.0 as char, q.1 as char),",
+         spec="requires q.1 < 0x80,\nensures " + APP % {"w": "s"} + "\n    is_ident_tok(" + NEW % {"w": "s"} + ", self.name(), q.0 as char, q.1 as char),\n    // explicit form of the token (used by the renderers of qualified names below)\n    final(s).text() == old(s).text() + tokq(self.name(), q),",
          proofs={"body-start": "let ghost t0 = s.text();", "body-end": PREPARE_PROOF})
     u.emit("}\n")
 
@@ -285,6 +285,83 @@ impl VIden {
                 make_r_tailbind()],
          spec="requires q.1 < 0x80,\nensures r@ == dblq(self.name(), q.1 as char),",
          proofs={"before#1:r_\n": "proof { assert(qq@ + qq@ =~= seq![q.1 as char, q.1 as char]); }"})
+    u.emit("}\n")
+
+    # ---- qualified names: table references and column references --------------------------------------------------------------
+    # Every table / schema / database / alias / column name of a query statement reaches the writer through these two
+    # functions.  Contract: the text written is the sequence of the names' identifier tokens (each `tokq(name, quote)`, which
+    # lemma_is_ident_tok shows to decode to exactly the name), joined by `.` / ` AS ` as the grammar requires.
+    u.spec('''
+pub type DynIden = VIden;   // R-dyn: SeaRc<dyn Iden> is the abstract implementor above
+#[verifier::external_body] pub struct SelectStatement { _o: u8 }
+#[verifier::external_body] pub struct ValueTuple { _o: u8 }
+#[verifier::external_body] pub struct FunctionCall { _o: u8 }
+pub proof fn lemma_tokq_is_ident_tok(name: Seq<char>, q: Quote)
+    ensures is_ident_tok(tokq(name, q), name, q.0 as char, q.1 as char)
+{ lemma_is_ident_tok(name, q.0 as char, q.1 as char); }
+// R-panic (trusted): panic!(..) never returns; reaching it is excluded by the function's precondition
+#[verifier::external_body]
+fn vpanic() requires false { unimplemented!() }
+''', "ident::qualified-names-spec", props=P)
+    u.type_item(T, "enum", "TableRef", props=P)
+    u.type_item(T, "enum", "ColumnRef", props=P)
+    u.emit("pub struct QBackend { pub q: Quote }\nimpl QBackend {\n    fn quote(&self) -> (r: Quote) ensures r == self.q { self.q }\n", kind="spec", key="ident::QBackend", props=P)
+    r_prep = make_r_sub("R-dyn", r"\b([a-z_]+)\.prepare\(sql, self\.quote\(\)\)", r"\1.prepare(sql, self.quote())", min_count=1)
+    DOT, AS = "seq!['.']", "seq![' ', 'A', 'S', ' ']"
+    tq = lambda n: "tokq(%s.name(), self.q)" % n
+    u.fn("src/backend/table_ref_builder.rs", "trait TableRefBuilder", "prepare_table_ref_iden", props=P, key="TableRefBuilder::prepare_table_ref_iden", vpath="QBackend::prepare_table_ref_iden",
+         rules=[r_dynw, r_fmt, make_r_sub("R-panic", r'panic!\("TableRef with values is not support"\)', "vpanic()")],
+         spec="""requires is_backend_quote(self.q), !(table_ref is SubQuery) && !(table_ref is ValuesList) && !(table_ref is FunctionCall),
+ensures
+    // [database.][schema.]table [AS alias] - one identifier token per name, in this order
+    final(sql).text() == old(sql).text() + (match *table_ref {
+        TableRef::Table(t) => %s,
+        TableRef::SchemaTable(s, t) => %s + %s + %s,
+        TableRef::DatabaseSchemaTable(d, s, t) => %s + %s + %s + %s + %s,
+        TableRef::TableAlias(t, a) => %s + %s + %s,
+        TableRef::SchemaTableAlias(s, t, a) => %s + %s + %s + %s + %s,
+        TableRef::DatabaseSchemaTableAlias(d, s, t, a) => %s + %s + %s + %s + %s + %s + %s,
+        _ => Seq::<char>::empty(),
+    }),""" % (tq("t"), tq("s"), DOT, tq("t"), tq("d"), DOT, tq("s"), DOT, tq("t"), tq("t"), AS, tq("a"), tq("s"), DOT, tq("t"), AS, tq("a"),
+              tq("d"), DOT, tq("s"), DOT, tq("t"), AS, tq("a")),
+         proofs={"body-start": 'let ghost t0 = sql.text();\nproof { reveal_strlit("."); reveal_strlit(" AS "); assert("."@ =~= seq![\'.\']); assert(" AS "@ =~= seq![\' \', \'A\', \'S\', \' \']); }',
+                 "body-end": """let ghost tr_ = *table_ref;
+proof {
+    match tr_ {
+        TableRef::Table(t) => { assert(sql.text() =~= t0 + %s); }
+        TableRef::SchemaTable(s, t) => { assert(sql.text() =~= t0 + (%s + %s + %s)); }
+        TableRef::DatabaseSchemaTable(d, s, t) => { assert(sql.text() =~= t0 + (%s + %s + %s + %s + %s)); }
+        TableRef::TableAlias(t, a) => { assert(sql.text() =~= t0 + (%s + %s + %s)); }
+        TableRef::SchemaTableAlias(s, t, a) => { assert(sql.text() =~= t0 + (%s + %s + %s + %s + %s)); }
+        TableRef::DatabaseSchemaTableAlias(d, s, t, a) => { assert(sql.text() =~= t0 + (%s + %s + %s + %s + %s + %s + %s)); }
+        _ => {}
+    }
+}""" % (tq("t"), tq("s"), DOT, tq("t"), tq("d"), DOT, tq("s"), DOT, tq("t"), tq("t"), AS, tq("a"), tq("s"), DOT, tq("t"), AS, tq("a"),
+        tq("d"), DOT, tq("s"), DOT, tq("t"), AS, tq("a"))})
+    STAR, DOTSTAR = "seq!['*']", "seq!['.', '*']"
+    u.fn("src/backend/query_builder.rs", "trait QueryBuilder", "prepare_column_ref", props=P, key="QueryBuilder::prepare_column_ref", vpath="QBackend::prepare_column_ref",
+         rules=[r_dynw, r_fmt],
+         spec="""requires is_backend_quote(self.q),
+ensures
+    // [schema.][table.]column | * | table.*
+    final(sql).text() == old(sql).text() + (match *column_ref {
+        ColumnRef::Column(c) => %s,
+        ColumnRef::TableColumn(t, c) => %s + %s + %s,
+        ColumnRef::SchemaTableColumn(s, t, c) => %s + %s + %s + %s + %s,
+        ColumnRef::Asterisk => %s,
+        ColumnRef::TableAsterisk(t) => %s + %s,
+    }),""" % (tq("c"), tq("t"), DOT, tq("c"), tq("s"), DOT, tq("t"), DOT, tq("c"), STAR, tq("t"), DOTSTAR),
+         proofs={"body-start": 'let ghost t0 = sql.text();\nproof { reveal_strlit("."); reveal_strlit("*"); reveal_strlit(".*"); assert("."@ =~= seq![\'.\']); assert("*"@ =~= seq![\'*\']); assert(".*"@ =~= seq![\'.\', \'*\']); }',
+                 "body-end": """let ghost cr_ = *column_ref;
+proof {
+    match cr_ {
+        ColumnRef::Column(c) => { assert(sql.text() =~= t0 + %s); }
+        ColumnRef::TableColumn(t, c) => { assert(sql.text() =~= t0 + (%s + %s + %s)); }
+        ColumnRef::SchemaTableColumn(s, t, c) => { assert(sql.text() =~= t0 + (%s + %s + %s + %s + %s)); }
+        ColumnRef::Asterisk => { assert(sql.text() =~= t0 + %s); }
+        ColumnRef::TableAsterisk(t) => { assert(sql.text() =~= t0 + (%s + %s)); }
+    }
+}""" % (tq("c"), tq("t"), DOT, tq("c"), tq("s"), DOT, tq("t"), DOT, tq("c"), STAR, tq("t"), DOTSTAR)})
     u.emit("}\n")
 
     # ---- raw quoting sites, discovered on every run --------------------------------------------------------------------
